@@ -32,9 +32,9 @@ func (Area) Gen(r *rand.Rand, tier string, emit func(string)) {
 	for _, l := range edgeCases() {
 		emit(l)
 	}
-	n := 700
+	n := 3000
 	if tier == "thorough" {
-		n = 9000
+		n = 30000
 	}
 	for i := 0; i < n; i++ {
 		emit(randomCase(r, tier).enc())
